@@ -20,6 +20,11 @@ Definition model (fn : N) (args : list Z) : option (option (list Z)) :=
   | 6%N, [y; m; d] => Some (match str_to_date_ymd false y m d with Some dt => d3 dt | None => None end)
   | 7%N, [y1; m1; d1; t1; y2; m2; d2; t2] => Some (Some [timestampdiff_seconds (y1, m1, d1) t1 (y2, m2, d2) t2])
   | 8%N, [u; y1; m1; d1; t1; y2; m2; d2; t2] => Some (Some [timestampdiff_unit u (y1, m1, d1) t1 (y2, m2, d2) t2])
+  (* DATEDIFF of two datetimes (time of day in seconds) *)
+  | 10%N, [y1; m1; d1; t1; y2; m2; d2; t2] => Some (Some [datediff_dt (y1, m1, d1) t1 (y2, m2, d2) t2])
+  (* DATE_ADD / DATE_SUB with a sub-day unit: date, microsecond of the day, signed microseconds to add *)
+  | 11%N, [y; m; d; tod; n] =>
+      let '((y', m', d'), t') := add_us (y, m, d) tod n in Some (Some [y'; m'; d'; t'])
   (* DATE_FORMAT: year, month, day, hour, minute, second, microsecond, then the bytes of the format;
      the observed result is the list of output bytes *)
   | 9%N, y :: m :: d :: h :: i :: s :: u :: fmt =>
